@@ -10,7 +10,9 @@ socket and when.  All traffic is LOCK STEP: the next script item is acted upon o
 and is blocked in poll() on its input (also true while it sits inside SSL_accept()).
 
 case line:  7e <cfg> <item> <item> ...          (hex fields; cfg = ascii "key=value;..." as for the session engine plus
-                                                 cert=good|none|bad)
+                                                 cert=good|none|bad, certname=plain|ip|ipport: which of the names
+                                                 find_servercert() tries carries the certificate, localip=long: with ip=v6
+                                                 the local address is a 39-octet IPv6 address)
   item = 53 <bytes>   'S' segment: the bytes are sent on the current channel (clear text, or one TLS record once a
                           handshake succeeded).  Sent while the server waits for a ClientHello they are the "garbage
                           instead of a ClientHello".
@@ -32,6 +34,7 @@ base = importlib.util.module_from_spec(_spec)
 _spec.loader.exec_module(base)
 
 READY = b'220 2.0.0 ready for tls\r\n'
+LONG_LOCALIP = '2001:0db8:1111:2222:3333:4444:5555:6666'
 
 
 def build(R, repo, builddir):
@@ -124,15 +127,22 @@ def run_case(h, R, line, idx):
     d = tempfile.mkdtemp(prefix='c%d_' % idx, dir=os.path.join(h['builddir'], 'run'))
     try:
         base.make_tree(d, cfg)
-        if cfg['cert'] == 'good':
-            shutil.copy(h['pem'], os.path.join(d, 'control', 'servercert.pem'))
-        elif cfg['cert'] == 'bad':
-            open(os.path.join(d, 'control', 'servercert.pem'), 'w').write('this is not a certificate\n')
         env = dict(R.RUNENV)
         if cfg['ip'] == 'v4':
             env.update(TCP6REMOTEIP='::ffff:192.0.2.1', TCP6LOCALIP='::ffff:192.0.2.2')
+            localip = '192.0.2.2'
         else:
             env.update(TCP6REMOTEIP='2001:db8::1', TCP6LOCALIP='2001:db8::2')
+            localip = '2001:db8::2'
+            if cfg.get('localip') == 'long':         # an address as long as an uncompressed IPv6 address can be
+                localip = LONG_LOCALIP
+                env.update(TCP6LOCALIP=LONG_LOCALIP)
+        # find_servercert() looks for servercert.pem.<ip>:<port>, servercert.pem.<ip>, servercert.pem
+        certname = 'servercert.pem' + {'ip': '.' + localip, 'ipport': '.' + localip + ':' + cfg['port']}.get(cfg.get('certname', 'plain'), '')
+        if cfg['cert'] == 'good':
+            shutil.copy(h['pem'], os.path.join(d, 'control', certname))
+        elif cfg['cert'] == 'bad':
+            open(os.path.join(d, 'control', certname), 'w').write('this is not a certificate\n')
         env.update(TCPREMOTEPORT='1234', TCPLOCALPORT=cfg['port'], QMAILQUEUE=h['qq'], QQ_MSG=os.path.join(d, 'qq.msg'),
                    QQ_ENV=os.path.join(d, 'qq.env'), QQ_PLAN=os.path.join(d, 'qqplan'), QQ_COUNT=os.path.join(d, 'qqcount'))
         a, b = socket.socketpair()
